@@ -1,7 +1,7 @@
 (* C15 — three-way merge (kyaml merge3 on the generic walker): property theorems only.
    Model: Yaml/Walk.v (the walker shared with C04) + Yaml/Merge3.v (Visitor). *)
 From KV Require Import Yaml.Walk Yaml.WalkProofs Yaml.WalkFields Yaml.Merge2 Yaml.Merge2Frame
-     Yaml.Merge3 Yaml.Merge3Proofs Yaml.Merge3Examples Yaml.Merge2Idem Yaml.Merge3Whole Yaml.WalkGenProofs Gen.WalkTables.
+     Yaml.Merge3 Yaml.Merge3Proofs Yaml.Merge3Examples Yaml.Merge2Idem Yaml.Merge3Whole Yaml.Merge3WholeUpd Yaml.WalkGenProofs Gen.WalkTables.
 
 (* merge3.Merge at the canonical fuel never runs out of fuel, for every schema, option set and triple. *)
 Theorem C15_no_diverge :
@@ -44,11 +44,11 @@ Theorem C15_all_equal_refuted :
 Proof. exact all_equal_refuted. Qed.
 Print Assumptions C15_all_equal_refuted.
 
-(* ... with inference on, a document containing an empty list is refused (finding
-   C15/all_equal/error-no-merge-key-for-empty-list). *)
-Theorem C15_all_equal_empty_list_refuted : m3 el_d el_d el_d = Err.
-Proof. exact empty_list_refused. Qed.
-Print Assumptions C15_all_equal_empty_list_refuted.
+(* ... with inference on, a document containing an empty list used to be refused (finding
+   C15/all_equal/error-no-merge-key-for-empty-list): FIXED in /repo, it merges with itself. *)
+Theorem C15_all_equal_empty_list : m3 el_d el_d el_d = Ok (Some el_d).
+Proof. exact empty_list_merges. Qed.
+Print Assumptions C15_all_equal_empty_list.
 
 (* What does hold of merge3(d,d,d) (partial, same fragment): every non-mapping, non-null value of d on a
    null-free path survives. *)
@@ -107,6 +107,50 @@ Theorem C15_updated_arrives_partial :
       getp q r = Some (expected3 nonstr (getp_o q o) v).
 Proof. exact (@merge3_updated_arrives). Qed.
 Print Assumptions C15_updated_arrives_partial.
+
+(* merge3(l,o,o) = l as a WHOLE-DOCUMENT equality (exact node equality), partial: on kinds whose lists are atomic, for a
+   mapping l with pairwise different keys ([wfk]), no null reached through mappings and no plain string that FieldSetter
+   force-quotes ([clean3 nonstr]), and an (unchanged) upstream pair o that l covers ([ocovers l o], a boolean):
+     - where l has a value, o holds no null            -- complement of C15/local_when_upstream_unchanged/explicit-null
+       (clean3 l is the local half of that class);
+     - every mapping of o is present in l              -- complement of C15/local_when_upstream_unchanged/
+                                                           container-missing-on-one-side (and of one_sided_local/...).
+   Kind changes (class error-kind-of-field-differs-between-versions) make the merge fail; the statement is about the
+   answers it gives. Not restricted otherwise: o may have fields l removed, lists, other values.
+   Non-vacuity: local_whole_example (Yaml/Merge3Whole.v). MISSING: keyed lists. *)
+Theorem C15_local_when_upstream_unchanged_partial :
+  forall (Sc : Type) (sch : schema Sc) (opts : wopts) (nonstr : string -> bool),
+    atomic_lists sch opts ->
+    forall (l : node) (o r : option node),
+      is_map l && wfk l && clean3 nonstr l && ocovers l o = true ->
+      merge3 sch opts nonstr (Some l) o o = Ok r ->
+      r = Some l.
+Proof. exact (@merge3_local_whole). Qed.
+Print Assumptions C15_local_when_upstream_unchanged_partial.
+
+(* merge3(o,o,u) = u as a WHOLE-DOCUMENT equality (exact node equality: tags, styles, key order), partial: on kinds whose
+   lists are atomic, for mappings o, u with pairwise different keys ([wfk]), u without nulls and without force-quoted
+   plain strings ([clean3 nonstr u]), and u agreeing with o place by place ([agrees (Some o) u], a boolean):
+     - a scalar of u sits on nothing or on a non-null scalar of o with the same quoting style
+                                                        -- complement of .../scalar-keeps-local-quoting and .../explicit-null
+       and, when the text is the same, the same tag     -- complement of .../scalar-type-only-change-ignored;
+     - a mapping / list of u sits on nothing or on a mapping / list
+                                                        -- complement of .../error-kind-of-field-differs-between-versions
+                                                           (and explicit-null);
+     - a field u no longer has was not a mapping in o   -- complement of .../container-missing-on-one-side;
+     - the keys of every mapping of u are in the order the walk produces ([merged_order]: the surviving keys of o in
+       o's order, then the new keys sorted; new mappings have sorted keys). This is not a finding class: the
+       oracle compares documents up to key order; the theorem states exact equality and so has to fix the order.
+   Non-vacuity: updated_whole_example (Yaml/Merge3WholeUpd.v). MISSING: keyed lists. *)
+Theorem C15_updated_when_local_unchanged_partial :
+  forall (Sc : Type) (sch : schema Sc) (opts : wopts) (nonstr : string -> bool),
+    atomic_lists sch opts ->
+    forall (o u : node) (r : option node),
+      is_map o && is_map u && wfk o && wfk u && clean3 nonstr u && agrees (Some o) u = true ->
+      merge3 sch opts nonstr (Some o) (Some o) (Some u) = Ok r ->
+      r = Some u.
+Proof. exact (@merge3_updated_whole). Qed.
+Print Assumptions C15_updated_when_local_unchanged_partial.
 
 (* ... a type-only change upstream (1 -> "1") is ignored, because scalars are compared by their text
    (finding C15/updated_when_local_unchanged/scalar-type-only-change-ignored) ... *)
